@@ -43,6 +43,14 @@ func main() {
 			wireCheck(c, "C10", false, nil)
 		case "C11":
 			wireCheck(c, "C11", true, nil)
+		case "C12":
+			checkC12(c)
+		case "C14":
+			checkC14(c)
+		case "C15":
+			checkC15(c)
+		case "C16":
+			checkC16(c)
 		default:
 			fmt.Fprintln(os.Stderr, "no check for", id)
 			os.Exit(2)
